@@ -114,6 +114,26 @@ def replay_case(arg):
                     fail('Density', 'integer_observations_score_differently', dict(float=float(a_[0]), int=float(b_[0]), par=par))
             except Exception as e:
                 fail('Evaluable', type(e).__name__, dict(op='integer observations', error=repr(e)))
+        # the same density behind a ReducedErrorModel whose last parameter was fixed to ANOTHER value first and then to the
+        # value of this case (a scan over a fixed scale): the density is that of the final value
+        if rep == 0 and mag == 'unit':
+            try:
+                with warnings.catch_warnings():
+                    warnings.simplefilter('ignore')
+                    rem = chi.ReducedErrorModel(probes.error_model(kind))
+                    nm_ = rem.get_parameter_names()[-1]
+                    rem.fix_parameters({nm_: abs(par[-1]) * 1.7 + 0.1})
+                    rem.fix_parameters({nm_: par[-1]})
+                    ll_r = rem.compute_log_likelihood(np.array(par[:-1]), mo.copy(), obs.copy())
+                    sc_r, g_r = rem.compute_sensitivities(np.array(par[:-1]), mo.copy(), S.copy(), obs.copy())
+                    pw_r = np.asarray(rem.compute_pointwise_ll(np.array(par[:-1]), mo.copy(), obs.copy()), dtype=float)
+                cnt['evaluations'] = cnt.get('evaluations', 0) + 3
+                if not (interp.close(ll_r, exp_ll) and interp.close(sc_r, exp_ll) and interp.close(pw_r, exp_pw)):
+                    fail('Density', 'reduced_model_after_refixing', dict(got=[float(ll_r), float(sc_r)], expected=exp_ll, par=par))
+                elif not interp.close(np.asarray(g_r, dtype=float), exp_g[:-1], rtol=1e-8, atol=1e-8):
+                    fail('GradOrder', 'reduced_model_after_refixing', dict(got=np.asarray(g_r).tolist(), expected=exp_g[:-1].tolist()))
+            except Exception as e:
+                fail('Evaluable', type(e).__name__, dict(op='reduced error model', error=repr(e)))
         if g.shape != (p + q,):
             fail('GradLength', 'length', dict(got=list(g.shape), expected=p + q))
         elif not interp.close(g, exp_g, rtol=1e-8, atol=1e-8):
